@@ -9,12 +9,22 @@ C15 — failure probability = analytic load/strength overlap.  Theorems about `M
     (`overlap_integral_eq_closed_form`, from `gaussianReal_conv_gaussianReal`).
 
 Admissible inputs: medians and loads positive (the code takes `log10`), `strength_std > 0`, `load_std ≥ 0` in the
-closed form (`> 0` for the integral; the code's `norm.pdf(·, scale = 0)` is NaN).
+closed form (`> 0` for the integral; the repaired code divides by `load_std`: `load_std = 0.0` raises).
+
+What the code COMPUTES (as opposed to the closed form it is supposed to equal) is `pfNormLoadCode` of the model with
+`quad := ` the exact interval integral: `pf_norm_load_code_eq_window_integral` (both branches `loc ≥ 0` / `loc < 0`),
+`pf_norm_load_code_truncation` (explicit limits), `pf_norm_load_code_near_closed_form` (default ±16: within
+`2 Φ(−16) < 2·10⁻⁵⁵` of the closed form), `pf_norm_load_code_in_unit_interval`, `pf_norm_load_code_limit`.  Because the
+distance to the closed form is below 2·10⁻⁵⁵ while the property's failure probabilities are ≥ 10⁻¹², monotonicity and
+range of the closed form carry over to every pair of code values whose closed forms differ by more than 4·10⁻⁵⁵.
 -/
 import Proofs.RealNum
 import Model.FailureProb
 import Proofs.Lemmas.GaussianOverlap
+import Proofs.Lemmas.GaussianWindow
+import Proofs.Lemmas.GaussianSmooth
 import Proofs.Lemmas.Trapezoid
+import Proofs.Lemmas.TrapezoidNonuniform
 import Mathlib.Topology.Algebra.Order.Field
 import Mathlib.MeasureTheory.Integral.Bochner.Basic
 import Mathlib.MeasureTheory.Measure.Lebesgue.Integral
@@ -116,8 +126,7 @@ example : Filter.Tendsto (fun ls => pfNormLoad stdNormalCdf 100 0.05 80 ls) (nhd
 
 /-! ## the overlap integral -/
 
-/-- `scipy.stats.norm.pdf(x, loc = 0, scale = σ)` -/
-noncomputable def normPdf (σ x : ℝ) : ℝ := (σ * Real.sqrt (2 * Real.pi))⁻¹ * Real.exp (-(x ^ 2) / (2 * σ ^ 2))
+/- `normPdf σ x` = `scipy.stats.norm.pdf(x, loc = 0, scale = σ)` is defined in `Proofs/Lemmas/GaussianDensity.lean`. -/
 
 /-- The integral that `pf_norm_load` hands to `quad` — load density (centred at 0, scale `load_std`) times the
 strength distribution function (`loc = s_50 − log10 load_median`, `scale = strength_std`) — taken over the whole
@@ -136,32 +145,156 @@ example : ∫ x, normPdf 0.1 x * normCdf stdNormalCdf x (Transc.log10 (100:ℝ) 
     = pfNormLoad stdNormalCdf 100 0.05 80 0.1 :=
   overlap_integral_eq_closed_form 100 0.05 80 0.1 (by norm_num) (by norm_num)
 
-private lemma normPdf_scale {ls : ℝ} (hls : 0 < ls) (t : ℝ) : normPdf 1 t = ls * normPdf ls (ls * t) := by
-  unfold normPdf
-  have h2 : Real.sqrt (2 * Real.pi) ≠ 0 := (Real.sqrt_pos.mpr (by positivity)).ne'
-  have e : -((ls * t) ^ 2) / (2 * ls ^ 2) = -(t ^ 2) / (2 * 1 ^ 2) := by
-    field_simp
-  rw [e]
-  field_simp
-
 /-- The same integral in the standardised load variable `t = x / load_std` (the form the repaired
 `pf_norm_load` integrates: `norm.pdf(t) * norm.cdf(sc * t, loc, scale)`). -/
 theorem overlap_integral_standardised (sm ss lm ls : ℝ) (hss : 0 < ss) (hls : 0 < ls) :
     ∫ t, normPdf 1 t * normCdf stdNormalCdf (ls * t) (Transc.log10 sm - Transc.log10 lm) ss
       = pfNormLoad stdNormalCdf sm ss lm ls := by
-  rw [← overlap_integral_eq_closed_form sm ss lm ls hss hls]
-  have h := MeasureTheory.Measure.integral_comp_mul_left
-    (fun x => normPdf ls x * normCdf stdNormalCdf x (Transc.log10 sm - Transc.log10 lm) ss) ls
-  simp only [smul_eq_mul, abs_inv, abs_of_pos hls] at h
-  have h' : ∫ t, normPdf 1 t * normCdf stdNormalCdf (ls * t) (Transc.log10 sm - Transc.log10 lm) ss
-      = ls * ∫ t, normPdf ls (ls * t) * normCdf stdNormalCdf (ls * t) (Transc.log10 sm - Transc.log10 lm) ss := by
-    rw [← MeasureTheory.integral_const_mul]
-    congr 1
-    funext t
-    rw [normPdf_scale hls t]
-    ring
-  rw [h', h]
-  field_simp
+  have h := gaussian_overlap_standardised (Transc.log10 sm - Transc.log10 lm) ss ls hss hls
+  simp only [normCdf, pfNormLoad, safetyIndex, transc_sqrt]
+  rw [h]
+  congr 2
+  · ring
+  · ring_nf
+
+example : ∫ t, normPdf 1 t * normCdf stdNormalCdf (0.1 * t) (Transc.log10 (100:ℝ) - Transc.log10 (80:ℝ)) 0.05
+    = pfNormLoad stdNormalCdf 100 0.05 80 0.1 :=
+  overlap_integral_standardised 100 0.05 80 0.1 (by norm_num) (by norm_num)
+
+/-- … and the integral, too, tends to the deterministic-load value as the load scatter vanishes (from above: the
+integral exists for `load_std > 0` only). -/
+theorem overlap_integral_tends_to_simple_load (sm ss lm : ℝ) (hss : 0 < ss) :
+    Filter.Tendsto
+      (fun ls => ∫ t, normPdf 1 t * normCdf stdNormalCdf (ls * t) (Transc.log10 sm - Transc.log10 lm) ss)
+      (nhdsWithin 0 (Set.Ioi 0)) (nhds (pfSimpleLoad stdNormalCdf sm ss lm)) := by
+  have h := (pf_tends_to_simple_load stdNormalCdf_isDistFn (sm := sm) (lm := lm) hss).mono_left
+    (nhdsWithin_le_nhds (s := Set.Ioi (0:ℝ)))
+  refine h.congr' ?_
+  filter_upwards [self_mem_nhdsWithin] with ls hls
+  exact (overlap_integral_standardised sm ss lm ls hss hls).symm
+
+example : Filter.Tendsto
+    (fun ls => ∫ t, normPdf 1 t * normCdf stdNormalCdf (ls * t) (Transc.log10 (100:ℝ) - Transc.log10 (80:ℝ)) 0.05)
+    (nhdsWithin 0 (Set.Ioi 0)) (nhds (pfSimpleLoad stdNormalCdf 100 0.05 80)) :=
+  overlap_integral_tends_to_simple_load 100 0.05 80 (by norm_num)
+
+/-! ## what the code computes: finite window, complement branch
+
+`pfNormLoadCode` (Model/FailureProb.lean) is `pf_norm_load` with its limits, its `loc ≥ 0` / `loc < 0` branches and the
+subtraction `cdf(upper) − cdf(lower) − q1`; `scipy.integrate.quad` is a parameter.  Here it is instantiated with the exact
+interval integral (quad's contract), `norm.sf = 1 − Φ`, `norm.pdf = normPdf 1`. -/
+
+/-- `scipy.integrate.quad(f, a, b)[0]` by contract -/
+noncomputable def quadExact (f : ℝ → ℝ) (a b : ℝ) : ℝ := ∫ t in a..b, f t
+
+/-- `scipy.stats.norm.sf` -/
+noncomputable def stdNormalSf (x : ℝ) : ℝ := 1 - stdNormalCdf x
+
+/-- `pf_norm_load` with exact quadrature -/
+noncomputable def pfNormLoadExact (sm ss lm ls : ℝ) (lower upper : Option ℝ) : ℝ :=
+  pfNormLoadCode stdNormalCdf stdNormalSf (normPdf 1) quadExact sm ss lm ls lower upper
+
+private lemma cont_integrand (Δ ss ls : ℝ) :
+    Continuous fun t : ℝ => normPdf 1 t * stdNormalCdf ((ls * t - Δ) / ss) :=
+  (continuous_normPdf 1).mul (stdNormalCdf_continuous.comp (by fun_prop))
+
+private lemma normPdf_one_nonneg (t : ℝ) : 0 ≤ normPdf 1 t := by
+  unfold normPdf; positivity
+
+/-- BOTH branches of the code (`loc ≥ 0`: integral of pdf · cdf; `loc < 0`: window mass minus integral of pdf · sf) give
+the integral of load density times strength distribution function over the (standardised) window — for every input. -/
+theorem pf_norm_load_code_eq_window_integral (sm ss lm ls : ℝ) (lower upper : Option ℝ) :
+    pfNormLoadExact sm ss lm ls lower upper
+      = ∫ t in (stdLimit (-16) lm ls lower)..(stdLimit 16 lm ls upper),
+          normPdf 1 t * normCdf stdNormalCdf (ls * t) (Transc.log10 sm - Transc.log10 lm) ss := by
+  have e2 : (16.0 : ℝ) = 16 := by norm_num
+  have e3 : (0.0 : ℝ) = 0 := by norm_num
+  simp only [pfNormLoadExact, pfNormLoadCode, quadExact, stdNormalSf, normCdf, e2, e3]
+  split_ifs with h
+  · rfl
+  · exact window_sf_identity _ _ _ _ _
+
+/-- the branch that subtracts is really exercised: strength median below load median -/
+example : pfNormLoadExact 80 0.05 100 0.1 none none
+    = ∫ t in (-16:ℝ)..16, normPdf 1 t * normCdf stdNormalCdf (0.1 * t) (Transc.log10 (80:ℝ) - Transc.log10 (100:ℝ)) 0.05 := by
+  have := pf_norm_load_code_eq_window_integral 80 0.05 100 0.1 none none
+  simpa [stdLimit] using this
+
+/-- Truncation: with limits `l ≤ u` (standardised) the code's value lies below the closed form by at most the load's
+probability mass outside the window. -/
+theorem pf_norm_load_code_truncation (sm ss lm ls : ℝ) (hss : 0 < ss) (hls : 0 < ls) (lower upper : Option ℝ)
+    (hlu : stdLimit (-16) lm ls lower ≤ stdLimit 16 lm ls upper) :
+    0 ≤ pfNormLoad stdNormalCdf sm ss lm ls - pfNormLoadExact sm ss lm ls lower upper ∧
+    pfNormLoad stdNormalCdf sm ss lm ls - pfNormLoadExact sm ss lm ls lower upper
+      ≤ stdNormalCdf (stdLimit (-16) lm ls lower) + stdNormalCdf (-(stdLimit 16 lm ls upper)) := by
+  rw [pf_norm_load_code_eq_window_integral]
+  have h := window_truncation (Transc.log10 sm - Transc.log10 lm) ss ls _ _ hss hls hlu
+  have e : pfNormLoad stdNormalCdf sm ss lm ls
+      = stdNormalCdf (-(Transc.log10 sm - Transc.log10 lm) / Real.sqrt (ls ^ 2 + ss ^ 2)) := by
+    simp only [pfNormLoad, safetyIndex, transc_sqrt]
+    congr 2
+    · ring
+    · ring_nf
+  simp only [normCdf]
+  rw [e]
+  exact h
+
+/-- DEFAULT LIMITS (±16 load standard deviations): the value the code computes (exact quadrature) differs from the closed
+form `Φ((log10 load_median − log10 strength_median)/√(load_std² + strength_std²))` by at most `2 Φ(−16) < 2·10⁻⁵⁵`
+(absolute; the property's failure probabilities are ≥ 10⁻¹²). -/
+theorem pf_norm_load_code_near_closed_form (sm ss lm ls : ℝ) (hss : 0 < ss) (hls : 0 < ls) :
+    |pfNormLoadExact sm ss lm ls none none - pfNormLoad stdNormalCdf sm ss lm ls| ≤ 2 * stdNormalCdf (-16) ∧
+    2 * stdNormalCdf (-16) < 2e-55 := by
+  have h := pf_norm_load_code_truncation sm ss lm ls hss hls none none (by simp only [stdLimit]; norm_num)
+  simp only [stdLimit] at h
+  refine ⟨?_, by linarith [stdNormalCdf_neg16_lt]⟩
+  rw [abs_sub_comm, abs_of_nonneg h.1]
+  linarith [h.2]
+
+example : |pfNormLoadExact 100 0.05 80 0.1 none none - pfNormLoad stdNormalCdf 100 0.05 80 0.1| < 2e-55 := by
+  have h := pf_norm_load_code_near_closed_form 100 0.05 80 0.1 (by norm_num) (by norm_num)
+  linarith [h.1, h.2]
+
+/-- The value the code computes stays in [0, 1] — this is about the code's own expression including the subtraction
+`cdf(upper) − cdf(lower) − q1` of the `loc < 0` branch, for every input with `lower ≤ upper` (default limits included). -/
+theorem pf_norm_load_code_in_unit_interval (sm ss lm ls : ℝ) (lower upper : Option ℝ)
+    (hlu : stdLimit (-16) lm ls lower ≤ stdLimit 16 lm ls upper) :
+    0 ≤ pfNormLoadExact sm ss lm ls lower upper ∧ pfNormLoadExact sm ss lm ls lower upper ≤ 1 := by
+  rw [pf_norm_load_code_eq_window_integral]
+  simp only [normCdf]
+  constructor
+  · exact intervalIntegral.integral_nonneg hlu fun t _ => mul_nonneg (normPdf_one_nonneg t) (stdNormalCdf_nonneg _)
+  · have hmono : ∫ t in (stdLimit (-16) lm ls lower)..(stdLimit 16 lm ls upper),
+          normPdf 1 t * stdNormalCdf ((ls * t - (Transc.log10 sm - Transc.log10 lm)) / ss)
+        ≤ ∫ t in (stdLimit (-16) lm ls lower)..(stdLimit 16 lm ls upper), normPdf 1 t := by
+      refine intervalIntegral.integral_mono_on hlu ((cont_integrand _ _ _).intervalIntegrable _ _)
+        ((continuous_normPdf 1).intervalIntegrable _ _) fun t _ => ?_
+      exact mul_le_of_le_one_right (normPdf_one_nonneg t) (stdNormalCdf_le_one _)
+    rw [integral_normPdf_one] at hmono
+    linarith [stdNormalCdf_nonneg (stdLimit (-16) lm ls lower), stdNormalCdf_le_one (stdLimit 16 lm ls upper)]
+
+example : 0 ≤ pfNormLoadExact 80 0.05 100 0.1 none none ∧ pfNormLoadExact 80 0.05 100 0.1 none none ≤ 1 :=
+  pf_norm_load_code_in_unit_interval 80 0.05 100 0.1 none none (by simp only [stdLimit]; norm_num)
+
+/-- Vanishing load scatter, for what the code computes (default limits): eventually within `2·10⁻⁵⁵ + ε` of
+`pf_simple_load`, for every `ε > 0`. -/
+theorem pf_norm_load_code_limit (sm ss lm : ℝ) (hss : 0 < ss) {ε : ℝ} (hε : 0 < ε) :
+    ∀ᶠ ls in nhdsWithin 0 (Set.Ioi 0),
+      |pfNormLoadExact sm ss lm ls none none - pfSimpleLoad stdNormalCdf sm ss lm| < 2e-55 + ε := by
+  have h := (pf_tends_to_simple_load stdNormalCdf_isDistFn (sm := sm) (lm := lm) hss).mono_left
+    (nhdsWithin_le_nhds (s := Set.Ioi (0:ℝ)))
+  have hev := (Metric.tendsto_nhds.mp h) ε hε
+  filter_upwards [hev, self_mem_nhdsWithin] with ls hd hls
+  have hc := pf_norm_load_code_near_closed_form sm ss lm ls hss hls
+  rw [Real.dist_eq] at hd
+  calc |pfNormLoadExact sm ss lm ls none none - pfSimpleLoad stdNormalCdf sm ss lm|
+      ≤ |pfNormLoadExact sm ss lm ls none none - pfNormLoad stdNormalCdf sm ss lm ls|
+        + |pfNormLoad stdNormalCdf sm ss lm ls - pfSimpleLoad stdNormalCdf sm ss lm| := abs_sub_le _ _ _
+    _ < 2e-55 + ε := by linarith [hc.1, hc.2]
+
+example : ∀ᶠ ls in nhdsWithin 0 (Set.Ioi 0),
+    |pfNormLoadExact 100 0.05 80 ls none none - pfSimpleLoad stdNormalCdf 100 0.05 80| < 2e-55 + 1e-12 :=
+  pf_norm_load_code_limit 100 0.05 80 (by norm_num) (by norm_num)
 
 /-! ## the arbitrary-distribution variant -/
 
@@ -193,5 +326,116 @@ example : Filter.Tendsto (fun N : ℕ => pfArbitraryLoad (fun _ => (1:ℝ)/2) 10
   refine (pf_arbitrary_converges_partial (fun _ => (1:ℝ)/2) (fun _ => 1) 10 1 0 1 ?_ (ζ := 0) ?_).2
   · simp only [normCdf]; exact contDiffOn_const
   · intro x; simp [normCdf, iteratedDerivWithin_const]
+
+/-- NON-UNIFORM sample points (what the refinement oracle and the upstream test run): for increasing nodes
+`x 0 ≤ … ≤ x n` (repeats allowed) with steps `≤ δ`, and an integrand `pdf · cdf_S` that is C² with `|f''| ≤ ζ` on
+`[x 0, x n]`, `pf_arbitrary_load` differs from the integral by at most `Σ hₖ³ ζ/12 ≤ δ² (xₙ − x₀) ζ / 12`. -/
+theorem pf_arbitrary_nonuniform_error_le (Φ pdf : ℝ → ℝ) (sm ss : ℝ) (x : ℕ → ℝ) (n : ℕ)
+    (hc2 : ContDiff ℝ 2 (fun y => pdf y * normCdf Φ y (Transc.log10 sm) ss))
+    (hx : ∀ k < n, x k ≤ x (k + 1)) {ζ : ℝ}
+    (hζ : ∀ y ∈ Set.Icc (x 0) (x n), |iteratedDeriv 2 (fun y => pdf y * normCdf Φ y (Transc.log10 sm) ss) y| ≤ ζ)
+    {δ : ℝ} (hδ : ∀ k < n, x (k + 1) - x k ≤ δ) :
+    |pfArbitraryLoad Φ sm ss ((List.range (n + 1)).map fun k => (x k, pdf (x k)))
+        - ∫ y in (x 0)..(x n), pdf y * normCdf Φ y (Transc.log10 sm) ss|
+      ≤ ∑ k ∈ Finset.range n, (x (k + 1) - x k) ^ 3 * ζ / 12 ∧
+    |pfArbitraryLoad Φ sm ss ((List.range (n + 1)).map fun k => (x k, pdf (x k)))
+        - ∫ y in (x 0)..(x n), pdf y * normCdf Φ y (Transc.log10 sm) ss|
+      ≤ δ ^ 2 * (x n - x 0) * ζ / 12 := by
+  have e : pfArbitraryLoad Φ sm ss ((List.range (n + 1)).map fun k => (x k, pdf (x k)))
+      = trapezoid ((List.range (n + 1)).map fun k =>
+          (x k, (fun y => pdf y * normCdf Φ y (Transc.log10 sm) ss) (x k))) := by
+    rw [pfArbitraryLoad, List.map_map]
+    rfl
+  rw [e]
+  exact ⟨trapezoid_nonuniform_error_le _ hc2 x n hx hζ, trapezoid_nonuniform_error_le_mesh _ hc2 x n hx hζ hδ⟩
+
+/-- non-vacuity: three unequal steps, density 1, a "distribution function" that is the identity (`f y = y`, `ζ = 0`:
+the rule is exact) -/
+example : |pfArbitraryLoad (fun z => z) 1 1 ((List.range 4).map fun k => ((k:ℝ) ^ 2, (1:ℝ)))
+    - ∫ y in ((0:ℕ):ℝ) ^ 2..((3:ℕ):ℝ) ^ 2, (1:ℝ) * normCdf (fun z => z) y (Transc.log10 (1:ℝ)) 1|
+      ≤ 5 ^ 2 * (((3:ℕ):ℝ) ^ 2 - ((0:ℕ):ℝ) ^ 2) * 0 / 12 := by
+  refine (pf_arbitrary_nonuniform_error_le (fun z => z) (fun _ => 1) 1 1 (fun k => (k:ℝ) ^ 2) 3 ?_ ?_ (ζ := 0) ?_
+    (δ := 5) ?_).2
+  · simp only [normCdf]; fun_prop
+  · intro k hk; gcongr; norm_num
+  · intro y _
+    have : (fun y : ℝ => (1:ℝ) * normCdf (fun z => z) y (Transc.log10 (1:ℝ)) 1) = fun y => y := by
+      funext y; simp [normCdf]
+    rw [this]
+    simp [iteratedDeriv_succ]
+  · intro k hk
+    interval_cases k <;> norm_num
+
+/-- THE SAMPLED LOG-NORMAL DENSITY: `pdf y = norm.pdf(y, loc = log10 load_median, scale = load_std)`, strength
+distribution function `Φ = stdNormalCdf`.  On ANY refinement sequence of increasing sample points from `a` to `b` whose
+largest step tends to zero, `pf_arbitrary_load` converges to the overlap integral over the sampled range `[a, b]`, and
+that integral lies below the closed form `pf_norm_load` by at most the load's probability mass outside `[a, b]`
+(`< 2·10⁻⁵⁵` for a range of ±16 load standard deviations). -/
+theorem pf_arbitrary_gaussian_converges (sm ss lm ls a b : ℝ) (hss : 0 < ss) (hls : 0 < ls) (hab : a ≤ b)
+    (x : ℕ → ℕ → ℝ) (n : ℕ → ℕ) (δ : ℕ → ℝ)
+    (h0 : ∀ N, x N 0 = a) (hn : ∀ N, x N (n N) = b) (hmono : ∀ N, ∀ k < n N, x N k ≤ x N (k + 1))
+    (hstep : ∀ N, ∀ k < n N, x N (k + 1) - x N k ≤ δ N) (hδ : Filter.Tendsto δ Filter.atTop (nhds 0)) :
+    Filter.Tendsto
+      (fun N => pfArbitraryLoad stdNormalCdf sm ss
+        ((List.range (n N + 1)).map fun k => (x N k, normPdf ls (x N k - Transc.log10 lm))))
+      Filter.atTop
+      (nhds (∫ y in a..b, normPdf ls (y - Transc.log10 lm) * normCdf stdNormalCdf y (Transc.log10 sm) ss)) ∧
+    0 ≤ pfNormLoad stdNormalCdf sm ss lm ls
+          - ∫ y in a..b, normPdf ls (y - Transc.log10 lm) * normCdf stdNormalCdf y (Transc.log10 sm) ss ∧
+    pfNormLoad stdNormalCdf sm ss lm ls
+          - ∫ y in a..b, normPdf ls (y - Transc.log10 lm) * normCdf stdNormalCdf y (Transc.log10 sm) ss
+      ≤ stdNormalCdf ((a - Transc.log10 lm) / ls) + stdNormalCdf (-((b - Transc.log10 lm) / ls)) := by
+  refine ⟨pfArbitraryLoad_gaussian_tendsto sm ss lm ls a b x n δ h0 hn hmono hstep hδ, ?_⟩
+  have h := window_truncation_unstd (Transc.log10 sm - Transc.log10 lm) ss ls
+    (a - Transc.log10 lm) (b - Transc.log10 lm) hss hls (by linarith)
+  have eI : ∫ y in a..b, normPdf ls (y - Transc.log10 lm) * normCdf stdNormalCdf y (Transc.log10 sm) ss
+      = ∫ x in (a - Transc.log10 lm)..(b - Transc.log10 lm),
+          normPdf ls x * stdNormalCdf ((x - (Transc.log10 sm - Transc.log10 lm)) / ss) := by
+    rw [← intervalIntegral.integral_comp_sub_right
+      (fun x => normPdf ls x * stdNormalCdf ((x - (Transc.log10 sm - Transc.log10 lm)) / ss)) (Transc.log10 lm)]
+    congr 1
+    funext y
+    simp only [normCdf]
+    congr 2
+    ring
+  have e : pfNormLoad stdNormalCdf sm ss lm ls
+      = stdNormalCdf (-(Transc.log10 sm - Transc.log10 lm) / Real.sqrt (ls ^ 2 + ss ^ 2)) := by
+    simp only [pfNormLoad, safetyIndex, transc_sqrt]
+    congr 2
+    · ring
+    · ring_nf
+  rw [eI, e]
+  exact h
+
+/-- non-vacuity: uniform refinements of the ±16 σ range of a load 80 / 0.1 against a strength 100 / 0.05 -/
+example : Filter.Tendsto
+    (fun N : ℕ => pfArbitraryLoad stdNormalCdf 100 0.05
+      ((List.range (N + 1 + 1)).map fun k : ℕ =>
+        ((Transc.log10 (80:ℝ) - 1.6) + (k:ℝ) * (3.2 / ((N:ℝ) + 1)),
+          normPdf 0.1 ((Transc.log10 (80:ℝ) - 1.6) + (k:ℝ) * (3.2 / ((N:ℝ) + 1)) - Transc.log10 (80:ℝ)))))
+    Filter.atTop
+    (nhds (∫ y in (Transc.log10 (80:ℝ) - 1.6)..(Transc.log10 (80:ℝ) + 1.6),
+      normPdf 0.1 (y - Transc.log10 (80:ℝ)) * normCdf stdNormalCdf y (Transc.log10 (100:ℝ)) 0.05)) := by
+  refine (pf_arbitrary_gaussian_converges 100 0.05 80 0.1 (Transc.log10 (80:ℝ) - 1.6) (Transc.log10 (80:ℝ) + 1.6)
+    (by norm_num) (by norm_num) (by linarith)
+    (fun N k => (Transc.log10 (80:ℝ) - 1.6) + (k:ℝ) * (3.2 / ((N:ℝ) + 1))) (fun N => N + 1)
+    (fun N => 3.2 / ((N:ℝ) + 1)) ?_ ?_ ?_ ?_ ?_).1
+  · intro N; simp
+  · intro N
+    have : ((N:ℝ) + 1) ≠ 0 := by positivity
+    push_cast
+    field_simp
+    ring
+  · intro N k _
+    have : 0 ≤ 3.2 / ((N:ℝ) + 1) := by positivity
+    push_cast
+    nlinarith
+  · intro N k _
+    push_cast
+    ring_nf
+    exact le_refl _
+  · have h : Filter.Tendsto (fun N : ℕ => (N:ℝ) + 1) Filter.atTop Filter.atTop :=
+      Filter.tendsto_atTop_add_const_right _ _ tendsto_natCast_atTop_atTop
+    exact h.const_div_atTop _
 
 end PylifeVerif.C15
